@@ -78,6 +78,7 @@ def parseACodec : String → ACodec
 /-- sink policy (offset-indexed) and call script, as in the harness -/
 structure Policy where
   failAt : Option (Nat × Nat) := none
+  failOnce : Bool := false
   zeroAt : Option Nat := none
   cap : Option Nat := none
   intr : List Nat := []
@@ -89,6 +90,7 @@ def parsePolicy (s : String) : Policy :=
   (s.splitOn "+").foldl (fun p part =>
     match part.splitOn ":" with
     | ["failat", k, kind] => { p with failAt := some (k.toNat!, kind.toNat!) }
+    | ["failonce", k, kind] => { p with failAt := some (k.toNat!, kind.toNat!), failOnce := true }
     | ["zeroat", k] => { p with zeroAt := some k.toNat! }
     | ["cap", c] => { p with cap := some c.toNat! }
     | ["intr", l] => { p with intr := ((l.splitOn ",").filter (· ≠ "")).map (·.toNat!) }
@@ -102,6 +104,7 @@ def parsePolicy (s : String) : Policy :=
 structure PSinkState where
   off : Nat := 0
   fired : List Nat := []
+  failSpent : Bool := false
   script : List Resp
 
 /-- the harness's `TestSink::write`, as a `Respond` function -/
@@ -113,13 +116,13 @@ def policyRespond (p : Policy) : Respond PSinkState := fun st buf =>
   | [] =>
     let off := st.off
     if p.intr.contains off && !st.fired.contains off then ({ st with fired := off :: st.fired }, .interrupted) else
-    if (match p.failAt with | some (k, _) => k == off | none => false) then
-      (st, .fail ((p.failAt.map (·.2)).getD 0)) else
+    if (match p.failAt with | some (k, _) => k == off && !(p.failOnce && st.failSpent) | none => false) then
+      ({ st with failSpent := true }, .fail ((p.failAt.map (·.2)).getD 0)) else
     if p.zeroAt == some off then (st, .accept 0) else
     let n0 := buf.length
     let n1 := match p.cap with | some c => min n0 (max c 1) | none => n0
     let stop (n : Nat) (q : Nat) : Nat := if q > off ∧ q < off + n then q - off else n
-    let n2 := match p.failAt with | some (k, _) => stop n1 k | none => n1
+    let n2 := match p.failAt with | some (k, _) => if p.failOnce && st.failSpent then n1 else stop n1 k | none => n1
     let n3 := match p.zeroAt with | some k => stop n2 k | none => n2
     let n4 := (p.intr.filter (fun q => !st.fired.contains q)).foldl stop n3
     ({ st with off := off + n4 }, .accept n4)
